@@ -473,7 +473,20 @@ func checkC19(c *Ctx) {
 			c.Check(isFreshAlloc(a.Base), "R6", site, a.In.Pos(), "only at creation of the node", "the frequency of an existing list node is modified in place: two nodes can end up with equal or out-of-order frequencies, after which evict() no longer removes a lowest-count key")
 		}
 		// increment: the new node is created with cur.freq+1 and inserted after the current node
-		if inc := p.Func(hkPkg, "(*Counter).increment"); inc != nil {
+		// the increment function by role: the one that creates a node with (loaded freq)+1
+		var inc *ssa.Function
+		for _, a := range p.fieldAccesses(freqF) {
+			if st, ok := a.In.(*ssa.Store); ok && a.Write {
+				if bo, ok := st.Val.(*ssa.BinOp); ok && bo.Op == token.ADD {
+					if ff, _ := loadedField(bo.X); ff == freqF {
+						inc = a.Fn
+					}
+				}
+			}
+		}
+		if inc == nil {
+			c.Fail("R6", "increment moves the item to a freq+1 node right after its node", token.NoPos, "no function creates a node with the current frequency plus one")
+		} else {
 			okNew := false
 			eachInstr(inc, func(_ *ssa.BasicBlock, _ int, in ssa.Instruction) {
 				st, ok := in.(*ssa.Store)
